@@ -73,6 +73,7 @@ type frame struct {
 	rangeOf     map[ssa.Value]ssa.Value
 	selects     map[*ssa.Select]bool
 	pendingAlloc []pendingAlloc
+	appendLens   []Term // lengths at earlier small-literal appends (loop-free functions only)
 }
 
 func (vc *VC) newFrame(fn *ssa.Function, con *Contract, depth int) *frame {
